@@ -245,6 +245,8 @@ theorem seq_step (ρ : Nat) (s : St) (e : Ev) (hI : Inv s) (hS : SeqInv ρ s)
   | gcList l => exact seq_writer ρ s _ hS rfl rfl rfl
   | gcRelease => exact seq_writer ρ s _ hS rfl rfl rfl
   | gcDelete p => exact seq_writer ρ s _ hS rfl rfl rfl
+  | mLock r => exact seq_writer ρ s _ hS rfl rfl rfl
+  | mUnlock r => exact seq_writer ρ s _ hS rfl rfl rfl
 
 theorem seq_run (ρ : Nat) (s : St) (t : List Ev) (hI : Inv s) (hS : SeqInv ρ s)
     (hv : validFrom full s t = true) (hq : check (seqOk ρ) s t = true) :
